@@ -4,7 +4,7 @@
    Vectors other than the samples (energies, num_occurrences, extra data, info) are
    compared exactly, field by field, by the worker. *)
 From Coq Require Import List ZArith NArith QArith Qcanon Bool Arith String.
-From Dimod Require Import Base.Util Model.Poly Model.Comb Model.Ser.
+From Dimod Require Import Base.Util Model.Poly Model.Comb Model.Ser Model.Coo.
 Import ListNotations.
 
 Inductive case :=
@@ -13,6 +13,9 @@ Inductive case :=
 | KBqm (n : nat) (vt0 vt1 : vartype) (before : obs) (vec : option bvec) (after : obs)
 (* COO text: vartype and non-zero biases *)
 | KCoo (n : nat) (vt0 vt1 : vartype) (before after : obs)
+(* COO text, line level: the header and the `u v bias` lines coo.dumps wrote *)
+| KCooText (n : nat) (vt0 : vartype) (header : bool) (before : obs)
+           (hdr : option vartype) (lines : list coo_line) (vt1 : vartype) (after : obs)
 (* sample rows: vartype, integer dtype?, pack_samples option, columns, rows before,
    sample_data emitted (words or raw rows), vartype after, rows after *)
 | KSS (vt : vartype) (int_dtype pack : bool) (n : nat) (rows : list (list Qc))
@@ -38,6 +41,19 @@ Definition bvec_eqb (a b : bvec) : bool :=
 
 Definition no_offset (o : obs) : poly := mkPoly (Q2Qc 0) (o_lin o) (o_quad o).
 
+Definition line_eqb (a b : coo_line) : bool :=
+  Nat.eqb (fst (fst a)) (fst (fst b)) && Nat.eqb (snd (fst a)) (snd (fst b)) && Qc_eqb (snd a) (snd b).
+
+Definition coo_text_ok (n : nat) (vt0 : vartype) (header : bool) (before : obs)
+  (hdr : option vartype) (lines : list coo_line) (vt1 : vartype) (after : obs) : bool :=
+  let t := coo_dumps header vt0 n (obs_poly before) in
+  list_eqb line_eqb (coo_lines t) lines
+  && option_eqb vartype_eqb (coo_header t) hdr
+  && match coo_loads (if header then None else Some vt0) (mkCoo hdr lines) with
+     | Some (vt, q) => vartype_eqb vt vt1 && poly_coeff_eqb n q (no_offset after)
+     | None => false
+     end.
+
 Definition check (c : case) : bool :=
   match c with
   | KBqm n vt0 vt1 before vec after =>
@@ -51,6 +67,7 @@ Definition check (c : case) : bool :=
          end
   | KCoo n vt0 vt1 before after =>
       vartype_eqb vt0 vt1 && poly_coeff_eqb n (no_offset before) (no_offset after)
+  | KCooText n vt0 header before hdr lines vt1 after => coo_text_ok n vt0 header before hdr lines vt1 after
   | KSS vt intd pack n rows emitted vt1 after =>
       vartype_eqb vt vt1
       && forallb (fun r => Nat.eqb (List.length r) n && forallb (valid_valueb vt) r) rows
